@@ -776,7 +776,7 @@ func (e *Engine) runFrame(fr *frame) {
 			if e.steps > e.cfg.MaxSteps && e.initMode == 0 {
 				panic(engineError{"step budget exceeded"})
 			}
-			if e.steps&0x3ffff == 0 && !e.cfg.Deadline.IsZero() && time.Now().After(e.cfg.Deadline) {
+			if e.steps&0x3ff == 0 && !e.cfg.Deadline.IsZero() && time.Now().After(e.cfg.Deadline) {
 				panic(engineError{"time budget exceeded"})
 			}
 			if e.cfg.Trace {
